@@ -38,8 +38,15 @@ func (k Keeper) GetModuleAccountAndPermissions(ctx sdk.Ctx, moduleName string) (
 	if acc != nil {
 		macc, ok := acc.(exported.ModuleAccountI)
 		if !ok {
-			fmt.Println("account that is retrieved is not a module account")
-			return types.ModuleAccount{}, []string{}
+			// an ordinary account sits at the module's address (coins were sent there before the
+			// module account was first used): it becomes the module account and keeps its coins
+			newMacc := types.NewEmptyModuleAccount(moduleName, perms...)
+			if err := newMacc.SetCoins(acc.GetCoins()); err != nil {
+				fmt.Println("account that is retrieved is not a module account")
+				return types.ModuleAccount{}, []string{}
+			}
+			k.SetModuleAccount(ctx, newMacc)
+			return newMacc, perms
 		}
 		return macc, perms
 	}
